@@ -271,6 +271,32 @@ pub fn oracle(tier: &str, seed: u64) -> (u64, Vec<Finding>) {
                 }
             }
         }
+        // (e) a target list in arbitrary order (descending knots, then a shuffled mix of knots, interior points and out-of-range
+        //     points): the property is per target, so every entry must equal what a call with that single target returns
+        {
+            let m = ms[(it % 2 + 1) as usize]; // Fill or Extrapolate: out-of-range targets return values
+            let mut ts: Vec<f64> = x.iter().rev().cloned().collect();
+            for _ in 0..n.min(12) {
+                let j = r.below(n as u64 - 1) as usize;
+                ts.push(match r.below(4) { 0 => x[j], 1 => x[j] + (x[j + 1] - x[j]) * r.unit(), 2 => below_target(&mut r, &x), _ => above_target(&mut r, &x) });
+            }
+            for i in (1..ts.len()).rev() { let k = r.below(i as u64 + 1) as usize; if i >= n { ts.swap(i, k.max(n).min(i)); } }
+            tried += 1;
+            if let Ok(all) = orun(checked, &x, &y, &ts, m) {
+                if all.len() != ts.len() { out.push(Finding { class: "result-length".into(), what: format!("{} results for {} targets", all.len(), ts.len()), input: describe(checked, &x, &y, &ts, m) }); }
+                else {
+                    for (i, t) in ts.iter().enumerate() {
+                        if !t.is_finite() { continue; }
+                        if let Ok(one) = orun(checked, &x, &y, &[*t], m) {
+                            if one.len() == 1 && one[0].to_bits() != all[i].to_bits() && !(one[0].is_nan() && all[i].is_nan()) {
+                                out.push(Finding { class: "targets:order-dependent".into(), what: format!("target {:e} at position {} of an unordered target list returned {:e}, alone it returns {:e} (knots must be reproduced and interior targets lie on their chord whatever the other targets are)", t, i, all[i], one[0]), input: describe(checked, &x, &y, &ts, m) });
+                                break;
+                            }
+                        }
+                    }
+                }
+            }
+        }
         // (d) rejection: unsorted abscissae (checked variant), mismatched lengths (both variants)
         if n >= 2 {
             let mut xu = x.clone();
